@@ -1296,16 +1296,16 @@ Section Refine.
   Lemma hids_note x nm : hids (note_main_only x nm) = hids x.
   Proof. unfold note_main_only. destruct (Nat.eqb _ _); auto. destruct (alookup _ _); auto. Qed.
 
-  Lemma simG_builtin3 x sx env senv :
+  Lemma simG_builtin3 x sx env senv nm :
     GoodG x sx -> envrel (ms x) env senv ->
-    SimG x (GG (note_main_only x "RuntimeError") "RuntimeError" (fun x2 w => RNormal env (emit x2 (display_m (ms x2) w))))
-           (sget (curp x) sx "RuntimeError" (fun w => QNormal senv (semit sx (display_s w)))).
+    SimG x (GG (note_main_only x nm) nm (fun x2 w => RNormal env (emit x2 (display_m (ms x2) w))))
+           (sget (curp x) sx nm (fun w => QNormal senv (semit sx (display_s w)))).
   Proof.
     intros G He.
-    replace (curp x) with (curp (note_main_only x "RuntimeError")) by (unfold curp; rewrite ms_note; reflexivity).
-    assert (Sx : Same x (note_main_only x "RuntimeError")).
+    replace (curp x) with (curp (note_main_only x nm)) by (unfold curp; rewrite ms_note; reflexivity).
+    assert (Sx : Same x (note_main_only x nm)).
     { constructor; rewrite ?ms_note, ?hids_note; auto. apply ext_refl. }
-    apply (simG_get x (note_main_only x "RuntimeError")); [apply goodG_note; auto|exact Sx|].
+    apply (simG_get x (note_main_only x nm)); [apply goodG_note; auto|exact Sx|].
     intros w _ _. rewrite display_tv. apply simG_emit; [apply goodG_note; auto|rewrite ms_note; auto|exact Sx].
   Qed.
 
